@@ -22,6 +22,25 @@ UNITS = [
     U("c20_setLocalSeed", "h_setLocalSeed", "ompl::RNG::setLocalSeed", [dict(name="normal_cache_not_reset", where="body:setLocalSeed", rx=r"normal_reset = 1;", repl=""),
                                                                        dict(name="reset_before_reseed", where="body:setLocalSeed", rx=r"(generator_seed\(localSeed_\);)(.*)(sph_reset = 1;)", repl=r"\2\3 \1")]),
 ]
+# ---- samplers (StateSampler.cpp and the leaf spaces): a sample is a function of the generator's draws only -- every output component is
+# (re)written from the RNG contract, nothing of the destination's previous content survives (units of C08, run from an ARBITRARY destination state:
+# a component the sampler skips keeps an arbitrary, possibly out-of-bounds value and fails the in-bounds postcondition) ----
+import copy, importlib.util as _ilu, os as _os
+def _load(n):
+    sp = _ilu.spec_from_file_location("u_" + n, _os.path.join(_os.path.dirname(__file__), n + ".py")); m = _ilu.module_from_spec(sp); sp.loader.exec_module(m); return m
+_C08 = _load("C08")
+for _u in _C08.UNITS:
+    if _u["name"] in ("c08_compound_sampleUniform", "c08_compound_sampleUniformNear", "c08_compound_sampleGaussian", "c08_realvector_sampleUniform", "c08_realvector_sampleUniformNear",
+                      "c08_realvector_sampleGaussian", "c08_so2_samplers", "c08_time_samplers", "c08_discrete_samplers"):
+        _v = copy.deepcopy(_u); _v["name"] = _v["name"].replace("c08_", "c20_sampler_"); UNITS.append(_v)
+        if _v["name"].endswith("realvector_sampleUniformNear"):
+            _v["in_tiers"] = ("thorough",)      # 3 min of solver time; the quick tier keeps the other eight sampler units
+# ---- the evaluation-count termination condition (unit of C18): its verdict depends on the number of evaluations only ----
+_C18 = _load("C18")
+for _u in _C18.UNITS:
+    if _u["name"] in ("c18_iteration_eval",):
+        _v = copy.deepcopy(_u); _v["name"] = "c20_iteration_termination"; UNITS.append(_v)
+
 ASSUMPTIONS = ["std::ranlux24_base, std::mt19937 and the std/boost distributions are deterministic functions of (seed, number of draws, cache state): assumed contracts on dependencies",
                "mutex deleted (sequential semantics); the RNG constructors' member-initialiser lists (seed obtained from nextSeed() handed to the engine) are not extracted"]
 TRUSTED = ["extraction rewrite table of units/C20.py", "stubs in units/C20/seed.c", "CBMC 6.11"]
